@@ -82,6 +82,7 @@ def step(lsel: int, rsel: int) -> bool:
     pre: L_LO <= lsel < L_HI and 0 <= rsel < NSEL
     post: _
     """
+    xs.path_start()
     op = OP
     lsel, rsel = xs.pick(lsel, L_LO, L_HI), xs.pick(rsel, 0, NSEL)
     (l, lk), (r, rk) = mk(lsel, "l"), mk(rsel, "r")
@@ -141,6 +142,7 @@ def refine(lsel: int, rsel: int, rl: bool, rr: bool) -> bool:
     pre: L_LO <= lsel < L_HI and 0 <= rsel < NSEL
     post: _
     """
+    xs.path_start()
     # C05: resolving UNKNOWN operands to FULFILLED/UNFULFILLED keeps validity and any definite result
     op = OP
     lsel, rsel = xs.pick(lsel, L_LO, L_HI), xs.pick(rsel, 0, NSEL)
@@ -248,6 +250,7 @@ def fce_step(idx: int) -> bool:
     pre: F_LO <= idx < F_HI
     post: _
     """
+    xs.path_start()
     idx = xs.pick(idx, F_LO, F_HI)
     op, li, ri = fce_cases()[idx]
     lf, lk, lv, lfce = OPERANDS_L[li]
